@@ -824,7 +824,7 @@ def run(ctx: Ctx):
             ctx.count("example file")
             p = one_text(ctx, drv, wd, text, case)
             example_oracle(ctx, p, case)
-        n = ctx.budget(150, 6000)
+        n = ctx.budget(150, 2500)
         for i in range(n):
             decimal_grid = False
             m = gen_file(rng, ctx.thorough, decimal_grid)
@@ -846,7 +846,7 @@ def run(ctx: Ctx):
             if i % 10 == 0:
                 check_calibration(ctx, wd, m, text, case)
         # files that are *not* well-formed in one way: a repeated antenna / frequency / period must be refused
-        for i in range(ctx.budget(20, 300)):
+        for i in range(ctx.budget(20, 150)):
             m = gen_file(rng, False)
             a = rng.choice(m["antennas"])
             how = rng.choice(["antenna", "frequency"])
@@ -869,7 +869,7 @@ def run(ctx: Ctx):
             if err != "ERR:not-unique":
                 ctx.violate(f"duplicate-{how}-accepted", f"a file repeating one {how} section was not refused ({err or 'parsed'})", {**case, "file_text": text})
         # decimal zenith steps: oracle only (np.arange on doubles), reported separately
-        for i in range(ctx.budget(30, 600)):
+        for i in range(ctx.budget(30, 300)):
             m = gen_file(rng, False, True)
             text = write_antex(m)
             case = {"decimal_grid": True, "i": i, "model": slim(m)}
